@@ -141,7 +141,9 @@ class Ctx:
     def quick(self):
         return self.tier == "quick"
 
-    def build_harness(self):
+    def build_harness(self, cmd=None):
+        """Build the harness runner. cmd = directory name under harness/cmd (default "vh")."""
+        cmd = cmd or getattr(self, "harness_cmd", "vh")
         if self.vh:
             return self.vh
         env = dict(os.environ)
@@ -152,7 +154,7 @@ class Ctx:
             raise Inconclusive("cannot copy go.sum: %s" % e)
         out = os.path.join(self.work, "vh")
         t = time.time()
-        p = subprocess.run(["go1.26", "build", "-tags", "verif", "-o", out, "./cmd/vh"], cwd=HARNESS, env=env,
+        p = subprocess.run(["go1.26", "build", "-tags", "verif", "-o", out, "./cmd/" + cmd], cwd=HARNESS, env=env,
                            stdout=subprocess.PIPE, stderr=subprocess.STDOUT, text=True)
         if p.returncode != 0:
             log(p.stdout[-4000:])
